@@ -5,6 +5,7 @@ Model: Impl/DataFrame.lean around the regenerated Gen.Operations / Gen.Methods /
 Full statement (`C01_full_statement`) vs what is proved (`C01_partial`): see the bottom of the file.
 -/
 import SqlframeModel.Lemmas.C01Steps
+import SqlframeModel.Lemmas.C01Dropna
 namespace Sqlframe
 open Gen
 
@@ -23,10 +24,9 @@ private theorem inv_of_ready_select (d : DF) (hi : Inv d) (hr : Ready d) (items 
   subst hb
   exact ⟨hi.1, hn, fun hlt => by simp [Op.toInt] at hlt, fun _ => hr.2.2.1, fun _ => hr.2.2.2⟩
 
-/-- One public method call: the model's result is the specification's result, and the clause-order
-    invariant is re-established.  (`hno`: an `orderBy` does not directly follow an `orderBy`.) -/
-theorem C01_step (d : DF) (s : Step) (h : Inv d) (hs : s.WF d.eval.cols)
-    (hno : s.isOrderBy = true → d.last ≠ .orderBy) (hin : s.inTheorem = true) :
+/-- `C01_step` for every method whose body runs in one wrapper (or one nested select wrapper). -/
+theorem C01_step_basic (d : DF) (s : Step) (h : Inv d) (hs : s.WF d.eval.cols)
+    (hno : s.isOrderBy = true → d.last ≠ .orderBy) (hin : s.inTheorem = true) (hb : s.isDropna = false) :
     (d.apply s).eval = specStep d.eval s ∧ Inv (d.apply s) ∧
       (s.isOrderBy = false → (d.apply s).last ≠ .orderBy) := by
   cases s with
@@ -162,8 +162,114 @@ theorem C01_step (d : DF) (s : Step) (h : Inv d) (hs : s.WF d.eval.cols)
       rw [e1, hcl]
     · refine inv_of_ready_select _ hi hr (List.zipWith (fun c n => (n, Expr.col c)) d.eval.cols names) ?_ _ rfl
       rw [zipWith_names _ _ hs.1]; exact hs.2
-  | dropna howAll thresh sub => simp [Step.inTheorem] at hin
+  | dropna howAll thresh sub => simp [Step.isDropna] at hb
   | unpivot ids vals var val => simp [Step.inTheorem] at hin
+
+/-- `dropna`: its body runs three decorated calls (select-append of the helper column, where, re-select);
+    each is an instance of `C01_step_basic`, and their composition is the null-count filter. -/
+theorem C01_step_dropna (d : DF) (howAll : Bool) (thresh : Option Nat) (sub : List Name) (h : Inv d)
+    (hs : (Step.dropna howAll thresh sub).WF d.eval.cols) :
+    (d.apply (.dropna howAll thresh sub)).eval = specStep d.eval (.dropna howAll thresh sub) ∧
+      Inv (d.apply (.dropna howAll thresh sub)) ∧
+      ((Step.dropna howAll thresh sub).isOrderBy = false → (d.apply (.dropna howAll thresh sub)).last ≠ .orderBy) := by
+    -- the body runs three decorated calls; each is a step of this very theorem's induction
+    have hop : Op.select ≠ Op.noOp := by decide
+    obtain ⟨hi, he⟩ := enter_inv .select d h
+    have hr := enter_ready .select hop (by decide) d h
+    have hcols : (enter .select d).outNames = d.eval.cols := by
+      rw [ready_outNames _ hr, ← he, ready_eval _ hi hr]
+    have hwfT : d.eval.WF := by rw [← he, ready_eval _ hi hr]; exact ⟨hi.1.1, stWhere_len _ _ hi.1⟩
+    obtain ⟨hsub, hnn⟩ := hs
+    let d0 := enter .select d
+    let items1 : List (Name × Expr) := identSel d.eval.cols ++ [("num_nulls", numNullsExpr sub)]
+    let pred : Expr := .bin .lt (.col "num_nulls") (.lit (.int (dropnaMin howAll thresh sub.length)))
+    -- (1) select(num_nulls, append=True)
+    have e1 : wrapper tag_select (bodySelectNoAppend true [("num_nulls", numNullsExpr sub)]) d0
+        = d0.apply (.select items1) := by
+      have hr0 := enter_ready .select hop (by decide) d0 hi
+      have hc0 : (enter .select d0).src.cols = d.eval.cols := by
+        have := (enter_inv .select d0 hi)
+        rw [← he, ← this.2, ready_eval _ this.1 hr0]
+      simp only [DF.apply, tag_select, wrapper_eq _ hop, bodySelectNoAppend, bodySelect, selectAppendDefault, if_true,
+        Bool.false_eq_true, if_false, items1]
+      rw [hr0.1, hc0]
+    have hd0e : d0.eval = d.eval := he
+    have hnd1 : ((identSel d.eval.cols ++ [("num_nulls", numNullsExpr sub)]).map (·.1)).Nodup := by
+      rw [List.map_append, identSel_names, List.nodup_append]
+      refine ⟨hwfT.1, by simp, ?_⟩
+      intro a ha b hb
+      simp at hb; subst hb
+      exact fun e => hnn (e ▸ ha)
+    have s1 := C01_step_basic d0 (.select items1) hi
+      (by
+        rw [hd0e]
+        refine ⟨hnd1, ?_⟩
+        intro it hit n hn
+        simp only [items1, List.mem_append, List.mem_singleton] at hit
+        rcases hit with hit | rfl
+        · simp only [identSel, List.mem_map] at hit
+          obtain ⟨c, hc, rfl⟩ := hit
+          simp only [Expr.refs, List.mem_singleton] at hn
+          exact hn ▸ hc
+        · exact hsub n (numNulls_refs sub n hn))
+      (by simp [Step.isOrderBy]) rfl rfl
+    -- (2) where(num_nulls < k)
+    have s2 := C01_step_basic (d0.apply (.select items1)) (.wher pred) s1.2.1
+      (by
+        rw [s1.1, hd0e]
+        intro n hn
+        simp only [pred, Expr.refs, List.append_nil, List.mem_singleton] at hn
+        subst hn
+        simp [specStep, Table.project, items1])
+      (by simp [Step.isOrderBy]) rfl rfl
+    -- (3) select(*all_columns)
+    have s3 := C01_step_basic ((d0.apply (.select items1)).apply (.wher pred)) (.select (identSel d.eval.cols)) s2.2.1
+      (by
+        rw [s2.1, s1.1, hd0e]
+        refine ⟨by rw [identSel_names]; exact hwfT.1, ?_⟩
+        intro it hit n hn
+        simp only [identSel, List.mem_map] at hit
+        obtain ⟨c, hc, rfl⟩ := hit
+        simp only [Expr.refs, List.mem_singleton] at hn
+        subst hn
+        simp [specStep, Table.project, Table.filter, items1, hc])
+      (by simp [Step.isOrderBy]) rfl rfl
+    have hbody : (wrapper tag_select (bodySelect (identSel d0.outNames))
+          (wrapper tag_where (bodyWhere pred)
+            (wrapper tag_select (bodySelectNoAppend true [("num_nulls", numNullsExpr sub)]) d0)))
+        = ((d0.apply (.select items1)).apply (.wher pred)).apply (.select (identSel d.eval.cols)) := by
+      rw [e1, hcols]
+      rfl
+    simp only [DF.apply, tag_dropna, wrapper_eq _ hop, specStep]
+    show (({ (wrapper tag_select (bodySelect (identSel d0.outNames))
+          (wrapper tag_where (bodyWhere pred)
+            (wrapper tag_select (bodySelectNoAppend true [("num_nulls", numNullsExpr sub)]) d0))) with last := Op.select } : DF)).eval = _ ∧ _
+    rw [hbody]
+    have hlast : (((d0.apply (.select items1)).apply (.wher pred)).apply (.select (identSel d.eval.cols))).last = Op.select := by
+      simp [DF.apply, tag_select, wrapper_eq _ hop]
+    have hsame : ({ (((d0.apply (.select items1)).apply (.wher pred)).apply (.select (identSel d.eval.cols))) with last := Op.select } : DF)
+        = (((d0.apply (.select items1)).apply (.wher pred)).apply (.select (identSel d.eval.cols))) := by
+      cases hx : (((d0.apply (.select items1)).apply (.wher pred)).apply (.select (identSel d.eval.cols)))
+      simp [hx] at hlast ⊢
+      exact hlast.symm
+    rw [hsame]
+    refine ⟨?_, s3.2.1, fun _ => by first | (rw [hlast]; decide) | decide⟩
+    rw [s3.1, s2.1, s1.1, hd0e]
+    simp only [specStep]
+    have := dropna_table d.eval sub (dropnaMin howAll thresh sub.length) hwfT hnn
+    simp only [nullCount] at this
+    exact this
+
+/-- One public method call: the model's result is the specification's result, and the clause-order
+    invariant is re-established.  (`hno`: an `orderBy` does not directly follow an `orderBy`.) -/
+theorem C01_step (d : DF) (s : Step) (h : Inv d) (hs : s.WF d.eval.cols)
+    (hno : s.isOrderBy = true → d.last ≠ .orderBy) (hin : s.inTheorem = true) :
+    (d.apply s).eval = specStep d.eval s ∧ Inv (d.apply s) ∧
+      (s.isOrderBy = false → (d.apply s).last ≠ .orderBy) := by
+  by_cases hb : s.isDropna = true
+  · cases s <;> simp [Step.isDropna] at hb
+    exact C01_step_dropna d _ _ _ h hs
+  · exact C01_step_basic d s h hs hno hin (by simpa using hb)
 
 /-- chains from any state satisfying the invariant -/
 theorem C01_run (steps : List Step) : ∀ (d : DF), Inv d → StepsWF d.eval steps →
@@ -196,7 +302,7 @@ theorem C01_run (steps : List Step) : ∀ (d : DF), Inv d → StepsWF d.eval ste
 
 /-- **C01 (proved part).** For every well-formed input table, every chain — of any length, in any
     order — of where / select / withColumn / withColumnRenamed / drop / toDF / distinct / orderBy / limit /
-    fillna / replace steps that PySpark accepts, the SQL pipeline sqlframe builds evaluates (under Core/Sql's
+    fillna / replace / dropna steps that PySpark accepts, the SQL pipeline sqlframe builds evaluates (under Core/Sql's
     clause order) to exactly the table obtained by applying the steps one after another. -/
 theorem C01_partial (T : Table) (steps : List Step) (hT : T.WF) (hs : StepsWF T steps)
     (hsc : noAdjacentOrderBy steps = true) (hin : steps.all Step.inTheorem = true) :
@@ -247,8 +353,8 @@ example : ((DF.init exTable).run exSteps).eval = { cols := ["x", "z"], rows := [
 /-! ### the full statement, for the record
 
 C01 as given quantifies over *all* single-input transformations.  `C01_partial` proves it for the
-eleven step kinds above.  Not covered by a theorem (they are exercised only by the correspondence
-stream, implementation vs executable specification): `dropna` and `unpivot` (modelled, `Step.inTheorem = false`),
+twelve step kinds above.  Not covered by a theorem (they are exercised only by the correspondence
+stream, implementation vs executable specification): `unpivot` (modelled, `Step.inTheorem = false`),
 `dropDuplicates(subset)`, `groupBy().agg()` as a step (see C06), expression order keys, and the
 tie order of a second `orderBy` (see `C01_orderBy_twice`). -/
 def C01_full_statement : Prop :=
